@@ -503,17 +503,19 @@ def run_unit(unit_name, tier, seed, workdir=None):
         pc = verify.classify(g, probe)
         bad = {}
         added = False
-        if g['unit'].get('auto_helpers'):
-            # units whose obligations do not depend on what a helper returns (interleaving units): a receiver-less helper the
-            # code now calls is pulled in from the same source file, without a contract, instead of giving the caller up
-            for t in pc['tool_errors']:
-                mh = re.search(r'cannot find function `(\w+)` in this scope|cannot call function `(?:\w+::)*(\w+)` with mode spec', t.get('message', ''))
-                hn = mh and (mh.group(1) or mh.group(2))
-                if hn and hn not in helpers:
+        # a helper the code now calls and the unit does not know: (1) a single-expression helper is pulled in with its body as
+        # its exact contract (every unit); (2) units whose obligations do not depend on what a helper returns (interleaving
+        # units) also take receiver-less helpers without a contract -- instead of giving the caller up
+        for t in pc['tool_errors']:
+            mh = re.search(r'cannot find function `(\w+)` in this scope|cannot call function `(?:\w+::)*(\w+)` with mode spec|no method named `(\w+)` found|no function or associated item named `(\w+)` found', t.get('message', ''))
+            hn = mh and next((x for x in mh.groups() if x), None)
+            if hn and hn not in helpers:
+                h = gen.find_pure_helper(g['unit'], hn)
+                if h is None and g['unit'].get('auto_helpers'):
                     h = gen.find_free_helper(g['unit'], hn)
-                    if h is not None:
-                        helpers[hn] = h
-                        added = True
+                if h is not None:
+                    helpers[hn] = h
+                    added = True
         if added:
             continue
         for t in pc['tool_errors']:
